@@ -549,13 +549,15 @@ var apiDocs = []string{
 	// spellings XML does not distinguish: white space before '>' and around '=', single quotes, an attribute on mj-attributes and
 	// mj-head, a comment inside the head — paths that look at the source TEXT instead of the tree would treat them differently
 	"<mjml ><mj-head\n><mj-attributes ><mj-all font-family = 'Lato' /><mj-text\n color='#ff0000' font-size=\"20px\"/><mj-class name='m1' font-weight=\"700\" /></mj-attributes ><!-- c --><mj-title >T</mj-title ></mj-head ><mj-body ><mj-section ><mj-column ><mj-text mj-class = 'm1' >A</mj-text ></mj-column ></mj-section ></mj-body ></mjml >",
+	// a web font used only inside a wrapper (the wrapper's children are built with their own copy of the render options)
+	`<mjml><mj-body><mj-section><mj-column><mj-image src="i.png"/></mj-column></mj-section><mj-wrapper><mj-section><mj-column><mj-text font-family="Roboto">in wrapper</mj-text></mj-column></mj-section></mj-wrapper></mj-body></mjml>`,
 }
 
 var (
-	apiOkBits    = "111011121" // 2 = parses, rendering fails
-	apiValBits   = "000010000"
-	apiStateBits = "000000000" // no document's tree carries render-to-render state (after the carousel-CSS fix)
-	apiAttrs     = "1,2,0,0,3,0,0,0,4"
+	apiOkBits    = "1110111211" // 2 = parses, rendering fails
+	apiValBits   = "0000100000"
+	apiStateBits = "0000000000" // no document's tree carries render-to-render state (after the carousel-CSS fix)
+	apiAttrs     = "1,2,0,0,3,0,0,0,4,0"
 )
 
 // one pair of documents per class of head difference (shared with C07): history independence must hold across each of them
